@@ -11,10 +11,10 @@ from props.C15 import Machine
 
 USES_TRANSLATOR = True
 DRIVER = 'MainGen.lean'
-REQUIRED_THEOREMS = ['Usid.C14.generated_assign_eq_hand', 'Usid.C14.generated_window_eq_hand',
+REQUIRED_THEOREMS = ['Usid.C14.ranks_see_initial_status', 'Usid.C14.generated_assign_eq_hand', 'Usid.C14.generated_window_eq_hand',
                      'Usid.C14.ranges_partition', 'Usid.C14.ranges_cover_disjoint',
                      'Usid.C14.ranks_concat_eq_pending', 'Usid.C14.rank_batches', 'Usid.C14.socket_master']
-RULE = ('[also: the ranks INTERLEAVED on one file - every rank runs compute() in its own thread under a deterministic cooperative scheduler with a fake mpi4py (rank, size, barrier), lowest or highest runnable rank first] [also: lazy reading, verbose=True] random (N positions up to 40, completion mask, rank count R, batch limit - common to all ranks or DIFFERENT per rank, as on '
+RULE = ('[also: the synchronisation skeleton of compute() is extracted from the current source and must satisfy the hypothesis Safe of theorem ranks_see_initial_status] [also: the ranks INTERLEAVED on one file - every rank runs compute() in its own thread under a deterministic cooperative scheduler with a fake mpi4py (rank, size, barrier), lowest or highest runnable rank first] [also: lazy reading, verbose=True] random (N positions up to 40, completion mask, rank count R, batch limit - common to all ranks or DIFFERENT per rank, as on '
         'sockets with different memory); the real compute() is run once per '
         'simulated rank on its own copy of the file; non-trivial = at least two ranks or a non-contiguous mask; '
         'plus processor-name lists for group_ranks_by_socket run against a fake MPI object')
@@ -68,6 +68,7 @@ def generate(seed, tier):
             mask = [0] * n if rng.random() < 0.6 else [1 if rng.random() < 0.2 else 0 for _ in range(n)]
             cases.append({'kind': 'ranks', 'n': n, 'm': 1, 'mask': mask, 'size': size, 'batch': rng.randint(2, 6),
                           'batches': [rng.randint(2, 6) for _ in range(size)], 'fresh': False})
+    cases.append({'kind': 'skeleton'})
     # cooperating ranks on ONE file, interleaved: every rank runs compute() in its own thread under a deterministic
     # cooperative scheduler (a rank keeps running until it blocks in comm.barrier(); then the lowest-numbered
     # runnable rank goes on; the barrier opens when every live rank has arrived) - or with the order reversed
@@ -80,6 +81,73 @@ def generate(seed, tier):
         cases.append({'kind': 'mpi', 'n': n, 'm': rng.randint(1, 2), 'mask': mask, 'size': size,
                       'batch': rng.randint(1, 4), 'fresh': fresh, 'order': rng.choice(['low-first', 'high-first'])})
     return cases
+
+
+def extract_skeleton(path=None):
+    """the synchronisation skeleton of Process.compute(), read from the CURRENT source: the order of `assign`
+    (__assign_job_indices), `barrier` and `mark` (a write to the completion-status dataset) instructions; methods of
+    the class called from compute() are followed two levels deep, branches and loop bodies are taken in order"""
+    import ast
+    import pyUSID.processing.process as _pp
+    path = path or _pp.__file__
+    src = open(path).read()
+    tree = ast.parse(src)
+    cls = [n for n in tree.body if isinstance(n, ast.ClassDef) and n.name == 'Process'][0]
+    methods = {n.name: n for n in cls.body if isinstance(n, ast.FunctionDef)}
+    out = []
+    def name_of(call):
+        f = call.func
+        return f.attr if isinstance(f, ast.Attribute) else (f.id if isinstance(f, ast.Name) else None)
+    def is_status_target(t):
+        return isinstance(t, ast.Subscript) and isinstance(t.value, ast.Attribute) and t.value.attr == '_h5_status_dset'
+    def visit_expr_calls(node, depth):
+        for sub in ast.walk(node):
+            if isinstance(sub, ast.Call):
+                nm = name_of(sub)
+                if nm is None:
+                    continue
+                base = nm.replace('_Process', '')
+                if base == '__assign_job_indices':
+                    out.append('assign')
+                elif nm in ('barrier', 'Barrier'):
+                    out.append('barrier')
+                elif base in methods and depth < 2 and base not in ('compute',):
+                    # a method of the class: its own skeleton counts (status marks hidden in helpers)
+                    before = len(out)
+                    is_init = 'create_compute_status' in base
+                    init_depth[0] += is_init
+                    visit_body(methods[base].body, depth + 1)
+                    init_depth[0] -= is_init
+                    if len(out) == before:
+                        out.append('other')
+    init_depth = [0]
+    def visit_body(body, depth):
+        for st in body:
+            if isinstance(st, (ast.Assign, ast.AugAssign)):
+                targets = st.targets if isinstance(st, ast.Assign) else [st.target]
+                visit_expr_calls(st.value, depth)
+                if any(is_status_target(t) for t in targets):
+                    # the initialisation every rank performs for itself when the status dataset is created
+                    # (identical values, before its own `assign`) is not a completion mark of a batch
+                    out.append('other' if init_depth[0] else 'mark')
+            elif isinstance(st, ast.Expr):
+                visit_expr_calls(st.value, depth)
+            elif isinstance(st, (ast.If,)):
+                visit_expr_calls(st.test, depth)
+                visit_body(st.body, depth); visit_body(st.orelse, depth)
+            elif isinstance(st, (ast.For, ast.While)):
+                visit_expr_calls(st.iter if isinstance(st, ast.For) else st.test, depth)
+                visit_body(st.body, depth); visit_body(st.orelse, depth)
+            elif isinstance(st, ast.Try):
+                visit_body(st.body, depth)
+                for h in st.handlers: visit_body(h.body, depth)
+                visit_body(st.orelse, depth); visit_body(st.finalbody, depth)
+            elif isinstance(st, ast.With):
+                visit_body(st.body, depth)
+            elif isinstance(st, ast.Return) and st.value is not None:
+                visit_expr_calls(st.value, depth)
+    visit_body(methods['compute'].body, 0)
+    return out
 
 
 class _Scheduler(object):
@@ -281,6 +349,11 @@ def run_impl(inp, work):
         finally:
             comp_utils.get_MPI = old
         return {'masters': [int(x) for x in r[1]]} if r[0] == 'ok' else {'err': r[1]}
+    if inp['kind'] == 'skeleton':
+        try:
+            return {'prog': extract_skeleton()}
+        except Exception as e:     # noqa
+            return {'prog': None, 'why': '%s: %s' % (type(e).__name__, e)}
     if inp['kind'] == 'mpi':
         return _run_mpi(inp, work)
     n, m, mask = inp['n'], inp['m'], inp['mask']
@@ -338,6 +411,8 @@ def oracle(inp, obs):
         if obs.get('masters') != want:
             fails.append('socket-master: ranks sharing a processor name are not grouped under the lowest rank')
         return fails
+    if inp['kind'] == 'skeleton':
+        return []        # decided by the model: Safe(skeleton) is the hypothesis of theorem ranks_see_initial_status
     if inp['kind'] == 'mpi':
         return _oracle_mpi(inp, obs)
     pend = [i for i, s in enumerate(inp['mask']) if s == 0]
@@ -368,12 +443,20 @@ def oracle(inp, obs):
 
 
 def nontrivial(inp, obs):
+    if inp['kind'] == 'skeleton':
+        return True
     if inp['kind'] == 'socket':
         return len(set(inp['names'])) < len(inp['names'])
     return inp['size'] > 1 and 0 in inp['mask']
 
 
 def model_requests(inp):
+    if inp['kind'] == 'skeleton':
+        try:
+            prog = extract_skeleton()
+        except Exception:      # noqa
+            prog = ['unreadable']
+        return [{'op': 'sync.safe', 'prog': prog}]
     if inp['kind'] == 'socket':
         return [{'op': 'proc.socket', 'names': inp['names']}]
     pend = sum(1 for s in inp['mask'] if s == 0)
@@ -387,6 +470,8 @@ def model_requests(inp):
 
 
 def model_obs(inp, resp):
+    if inp['kind'] == 'skeleton':
+        return {'safe': resp[0]}
     if inp['kind'] == 'socket':
         return {'masters': resp[0]}
     ranks = resp[0]['ranks']
@@ -397,6 +482,8 @@ def model_obs(inp, resp):
 
 
 def project(inp, obs):
+    if inp['kind'] == 'skeleton':
+        return {'safe': True}          # the hypothesis of ranks_see_initial_status must hold of the current source
     if inp['kind'] == 'socket':
         return obs
     if 'ranks' not in obs:
@@ -415,7 +502,7 @@ def project(inp, obs):
 
 
 def distribution(cases, obs):
-    d = {'socket': 0, 'ranks': 0, 'mpi': 0, 'jobs_lt_ranks': 0, 'noncontiguous': 0, 'all_done': 0}
+    d = {'socket': 0, 'ranks': 0, 'mpi': 0, 'skeleton': 0, 'jobs_lt_ranks': 0, 'noncontiguous': 0, 'all_done': 0}
     for c in cases:
         d[c['kind']] += 1
         if c['kind'] == 'ranks':
